@@ -274,7 +274,31 @@ def run_ctor(case):
         if case["kind"] == "ctor":
             cls[case["cls"]](**{case["field"]: from_tag(case["val"])})
         elif case["kind"] == "oneof":
-            cls[case["cls"]](**{m: cls[MEMBER_CLASS[m]]() for m in case["members"]})
+            # every spelling of the same call: keywords, positional (declared field order), first member positional + keywords
+            import attrs as _attrs
+            C = cls[case["cls"]]
+            order = [a.name for a in _attrs.fields(C)]
+            mem = {m: cls[MEMBER_CLASS[m]] for m in case["members"]}
+            spellings = [lambda: C(**{m: k() for m, k in mem.items()})]
+            if mem:
+                last = max(order.index(m) for m in mem)
+                spellings.append(lambda: C(*[(mem[f]() if f in mem else None) for f in order[:last + 1]]))
+                first = min(mem, key=order.index)
+                k0 = order.index(first)
+                spellings.append(lambda: C(*[(mem[f]() if f == first else None) for f in order[:k0 + 1]], **{m: k() for m, k in mem.items() if m != first}))
+            errs = []
+            for sp in spellings:
+                try:
+                    sp()
+                    errs.append("")
+                except Exception as e:  # noqa: BLE001
+                    errs.append(_err(e))
+            # more than one member must be refused in EVERY spelling; at most one member accepted in every spelling
+            if len(mem) >= 2:
+                obs["raised"] = "" if "" in errs else errs[0]
+            else:
+                obs["raised"] = next((e for e in errs if e), "")
+            obs["spellings"] = len(spellings)
         elif case["kind"] == "weights":
             bbc = cls["BackboneConfig"](**{case["bbfam"]: cls[MEMBER_CLASS[case["bbfam"]]]()})
             cls["ModelConfig"](pre_trained_weights=from_tag(case["val"]), backbone_config=bbc)
